@@ -396,7 +396,9 @@ def plan_C09(tier, seed):
                       "generated by the harness from the real encoding (the specification supplies types and values); integers also at "
                       "the edges of the 64-bit types and congruent to the encoded value modulo 2^8..2^64 (inside the property's range). "
                       "Second form: every document obtained by deleting ONE member that InferSpec lists as required at its place "
-                      "must be rejected")
+                      "must be rejected. Third form (from the schema's side): documents BUILT to satisfy the inferred schema "
+                      "(per node: each declared type, bounds, all/required-only properties, each alternative per property, "
+                      "array lengths) that it accepts must decode as well")
 
 
 def plan_C16(tier, seed):
